@@ -391,6 +391,7 @@ def expected_leaf_spread(case, flat, leaf_name, mixing):
 
 
 _FRESH = {}
+STATS = {"states_checked": 0, "recovery_final_states_checked": 0, "recovery_calls_that_raised": 0, "main_calls_that_raised": 0}
 
 
 def fresh_tm(case, spread):
@@ -491,6 +492,7 @@ def relations(case):
         raised = do_op(m, op)
         if raised is not None:
             all_ok = False
+            STATS["recovery_calls_that_raised" if case["stream"] == "recovery" else "main_calls_that_raised"] += 1
             if case["stream"] in ("main", "probe", "hpv"):
                 # calls of these streams are generated to return normally
                 out.append(({"class": cls, "config": c10.config_text(case), "call": op.get("m", op["op"]),
@@ -506,6 +508,9 @@ def relations(case):
         elif not all_ok:
             break
         obs = observe(case, m)
+        STATS["states_checked"] += 1
+        if case["stream"] == "recovery":
+            STATS["recovery_final_states_checked"] += 1
         for rel, detail in invariant(case, obs):
             sig = {"class": cls, "config": c10.config_text(case), "call": op.get("m", op["op"]), "relation": rel,
                    "stream": case["stream"]}
@@ -915,6 +920,7 @@ def run(ctx: Ctx, a_ok: bool):
             seen_rel.append(key)
             report_rel(ctx, c, sig, detail)
     ctx.extra["invariant_failures"] = nrel
+    ctx.extra["invariant_stats"] = dict(STATS)
     ctx.extra["invariant_failures_by_stream"] = by_stream
 
 
